@@ -72,6 +72,18 @@ theorem sends_no_deliver (fl : List WRec) (p : Bytes) : Out.deliver p ∉ sends 
 @[simp] theorem clientFinalFlight_localSecret (C : Crypto) (c : Ctx) (k : Keys) : (clientFinalFlight C c k).2.localSecret = c.localSecret := rfl
 @[simp] theorem serverFlight_localSecret (L : Loc) (c : Ctx) : (serverFlight L c).2.localSecret = c.localSecret := rfl
 @[simp] theorem clientFinalFlight_keys (C : Crypto) (c : Ctx) (k : Keys) : (clientFinalFlight C c k).2.keys = some k := rfl
+@[simp] theorem helloCtx_keys (L : Loc) (c : Ctx) (r : Bytes) (e : Bool) (p : List Nat) : (helloCtx L c r e p).keys = c.keys := rfl
+@[simp] theorem helloCtx_peerCert (L : Loc) (c : Ctx) (r : Bytes) (e : Bool) (p : List Nat) : (helloCtx L c r e p).peerCert = c.peerCert := rfl
+@[simp] theorem helloCtx_skeVerified (L : Loc) (c : Ctx) (r : Bytes) (e : Bool) (p : List Nat) : (helloCtx L c r e p).skeVerified = c.skeVerified := rfl
+@[simp] theorem helloCtx_peerPub (L : Loc) (c : Ctx) (r : Bytes) (e : Bool) (p : List Nat) : (helloCtx L c r e p).peerPub = c.peerPub := rfl
+@[simp] theorem helloCtx_expectedFp (L : Loc) (c : Ctx) (r : Bytes) (e : Bool) (p : List Nat) : (helloCtx L c r e p).expectedFp = c.expectedFp := rfl
+@[simp] theorem helloCtx_localSecret (L : Loc) (c : Ctx) (r : Bytes) (e : Bool) (p : List Nat) : (helloCtx L c r e p).localSecret = c.localSecret := rfl
+@[simp] theorem helloCtx_seqNum (L : Loc) (c : Ctx) (r : Bytes) (e : Bool) (p : List Nat) : (helloCtx L c r e p).seqNum = c.seqNum := rfl
+@[simp] theorem helloCtx_epoch (L : Loc) (c : Ctx) (r : Bytes) (e : Bool) (p : List Nat) : (helloCtx L c r e p).epoch = c.epoch := rfl
+@[simp] theorem helloCtx_lastFlight (L : Loc) (c : Ctx) (r : Bytes) (e : Bool) (p : List Nat) : (helloCtx L c r e p).lastFlight = c.lastFlight := rfl
+@[simp] theorem helloCtx_msgSeq (L : Loc) (c : Ctx) (r : Bytes) (e : Bool) (p : List Nat) : (helloCtx L c r e p).msgSeq = c.msgSeq := rfl
+@[simp] theorem helloCtx_recvSeq (L : Loc) (c : Ctx) (r : Bytes) (e : Bool) (p : List Nat) : (helloCtx L c r e p).recvSeq = c.recvSeq := rfl
+@[simp] theorem helloCtx_clientRandom (L : Loc) (c : Ctx) (r : Bytes) (e : Bool) (p : List Nat) : (helloCtx L c r e p).clientRandom = some r := rfl
 @[simp] theorem withCtx_connKeys (e : Ep) (c : Ctx) : (withCtx e c).connKeys = e.connKeys := rfl
 @[simp] theorem withCtx_evs (e : Ep) (c : Ctx) : (withCtx e c).evs = e.evs := rfl
 @[simp] theorem withCtx_writeEpoch (e : Ep) (c : Ctx) : (withCtx e c).writeEpoch = e.writeEpoch := rfl
